@@ -345,3 +345,44 @@ def h9(ctx):
 
 
 RULES.append(h9)
+
+
+def completion_inserts(crate):
+    """SlotMap::insert(m, k, v) sites guarded by `!m.contains_key(k)` (or `m.get(k)` being None): a map is being
+    completed for a slot it does not cover yet.  [(root, body, call, value role)]"""
+    out = []
+    for b in crate.bodies.values():
+        if not (b.file or "").startswith("src/") or (b.file or "").endswith("tst.rs") or crate.root_of(b).auto_derived:
+            continue
+        for c in b.calls:
+            if not (c.callee and c.callee.name == "insert" and "SlotMap" in (c.callee.impl_self or "") and len(c.args) == 3) or b.blocks[c.bb]["cleanup"]:
+                continue
+            m, k = strip_role(b.role_of_operand(c.args[0])), strip_role(b.role_of_operand(c.args[1]))
+            for e, cond in C.conditions_at(b, c.bb):
+                r = strip_role(cond[1]) if len(cond) > 1 else None
+                if cond[0] == "false" and isinstance(r, tuple) and r[0] == "call" and r[1] == "contains_key" and len(r[3]) == 2:
+                    if strip_role(r[3][0]) == m and strip_role(r[3][1]) == k:
+                        out.append((crate.root_of(b), b, c, b.role_of_operand(c.args[2])))
+                        break
+    return out
+
+
+@rule("H10", doc="completion of a slot map for slots it does not cover invents brand-new names: `if !m.contains_key(x) { m.insert(x, Slot::fresh()) }` everywhere")
+def h10(ctx):
+    crate = ctx.lib()
+    sites = completion_inserts(crate)
+    for root, b, c, v in sites:
+        sv = strip_role(v)
+        ok = isinstance(sv, tuple) and sv[0] == "call" and sv[1] == "fresh"
+        # canonical renumbering of a map built from scratch (`theta.insert(x, Slot::numeric(theta.len()))`): a normal form, not a completion
+        m0 = strip_role(b.role_of_operand(c.args[0]))
+        if not ok and isinstance(sv, tuple) and sv[0] == "call" and sv[1] == "numeric" and role_mentions_call(sv, "len") and isinstance(m0, tuple) and m0[0] == "call" and m0[1] in ("new", "default"):
+            ctx.ok("canonical-numbering:" + C.fkey(root), "%s numbers the slots of a map built from scratch (normal form of a registry key)" % C.short(root.id), where_of(b, c.bb))
+            continue
+        ctx.check(ok, "completion-is-fresh:" + C.fkey(root), "%s completes a slot map with Slot::fresh()" % C.short(root.id),
+                  "%s completes a slot map for an uncovered slot with %s instead of Slot::fresh(): the invented name can coincide with a name that is already in use (a slot of the class, a slot the rule's right-hand side introduces, a user name) — capture / a spurious redundancy, and the result depends on how names are spelled" % (C.short(root.id), role_str(sv)[:60]),
+                  where_of(b, c.bb))
+    ctx.floor("slot-map completion sites", len(sites), 2)
+
+
+RULES.append(h10)
